@@ -21,7 +21,7 @@ COLL_STREAM = dict(
     env=dict(quick=dict(VERIF_COLL_EXH=2, VERIF_COLL_RANDOM=250, VERIF_COLL_MODS=120),
              thorough=dict(VERIF_COLL_EXH=3, VERIF_COLL_RANDOM=2500, VERIF_COLL_MODS=1200)),
     # a wrong ModuleError wrapping shows on the `c mods` line only; everything else is the registry
-    prop_ops=dict(C17=r'^c (?!mods|def)', C20=r'^c (mods|def|new|slice|count|build|pget|pgroup)'),
+    prop_ops=dict(C17=r'^c (?!mods|def)', C20=r'^c (mods|def|new)'),
     rule='collection op sequences: corpus (D11/D12/D13 regressions), every sequence of length L over 15 colliding calls '
          '(plain/named/grouped/multi-return/result-object/alias adds, removes, a nested module, Build), random sequences '
          'over 6 service types + 2 interfaces + reserved types, 2 names, 2 groups, 3 lifetimes, valid and invalid option '
